@@ -192,7 +192,8 @@ def parse_msm(msg: object) -> tuple:
     :rtype: tuple
     """
 
-    if not msg.ismsm:
+    # "Reserved MSM" message numbers are flagged ismsm but carry no MSM fields
+    if not msg.ismsm or not hasattr(msg, "NSat"):
         return None
 
     meta = {}
